@@ -83,3 +83,19 @@ def traj_object(ctx, mode='positions', name='tr'):
 def frac(v):
     """v mod 1 in real arithmetic."""
     return v - z3.ToReal(z3.ToInt(v))
+
+
+def merge_units(name, units, keep=None):
+    """Re-run proof units of another property module under this property (dependency units): a change that breaks a clause this
+    property relies on is reported here as well.  `keep(label)` filters the re-used results."""
+    from verif.engine.unit import Unit
+    u = Unit(name)
+    for x in units:
+        for r in x.results:
+            if keep is not None and not keep(r.get('label', '')):
+                continue
+            r = dict(r)
+            r['unit'] = name
+            u.results.append(r)
+        u.functions_used.update(x.functions_used)
+    return u
